@@ -113,3 +113,115 @@ Proof.
   split; [apply frag_text|]. apply quote_free_text_ok.
   pose proof (escape_no_markup_ms s) as H. unfold no_markup in H. apply andb_prop in H as [H _]. exact H.
 Qed.
+
+(* ---------------------------------------------------------------------------------------- *)
+(* soundness of the Coq-side classification of output expressions                            *)
+(* ---------------------------------------------------------------------------------------- *)
+From Verif Require Import HtmlThmOk.
+
+Lemma val_ok_qf k v : quote_free v = true -> val_ok k v.
+Proof.
+  intros H. unfold val_ok. destruct (k <=? 3); [exact H|]. destruct (k =? 4); [|exact I].
+  exists [PText v]. split; [unfold render; cbn; rewrite app_nil_r; reflexivity|]. split; [apply pieces_ok_text, qf_lt_free, H|apply frag_text].
+Qed.
+
+Lemma val_ok_mono k k' v : k <= k' -> val_ok k v -> val_ok k' v.
+Proof.
+  intros Hle H. unfold val_ok in *. destruct (N.leb_spec k 3).
+  - apply (val_ok_qf k' v H).
+  - destruct (N.leb_spec k' 3); [lia|]. destruct (N.eqb_spec k 4) as [->|].
+    + destruct (N.eqb_spec k' 4); [exact H|exact I].
+    + destruct (N.eqb_spec k' 4); [lia|exact I].
+Qed.
+
+Lemma val_ok_app k a b : val_ok k a -> val_ok k b -> val_ok k (a ++ b).
+Proof.
+  unfold val_ok. destruct (k <=? 3); [intros; apply qf_app; assumption|]. destruct (k =? 4); [|auto].
+  intros (pa & -> & Oa & Fa) (pb & -> & Ob & Fb). exists (pa ++ pb). split; [symmetry; apply render_app|].
+  split; [rewrite pieces_ok_app, Oa, Ob; reflexivity|apply frag_app; assumption].
+Qed.
+
+Lemma val_ok_nil k : val_ok k [].
+Proof. apply val_ok_qf. reflexivity. Qed.
+
+Lemma val_ok_repeat k v n : val_ok k v -> val_ok k (concat (repeat v n)).
+Proof. intros H. induction n as [|n IH]; [apply val_ok_nil|]. cbn [repeat concat]. apply val_ok_app; assumption. Qed.
+
+Lemma var_cls_bound vc bs sc x k : certificate_bound vc bs = true -> var_cls vc sc x = Some k ->
+  exists sc' rhs, In (sc, x, sc', rhs) bs.
+Proof.
+  unfold certificate_bound. intros H Hv. induction vc as [|[[sc0 y] k0] r IH]; [discriminate|].
+  cbn [forallb] in H. apply andb_prop in H as [H0 Hr]. cbn [var_cls] in Hv.
+  destruct (str_eqb sc sc0 && str_eqb x y) eqn:E.
+  - apply andb_prop in E as [E1 E2]. destruct (str_eqb_spec sc sc0) as [->|]; [|discriminate]. destruct (str_eqb_spec x y) as [->|]; [|discriminate].
+    apply existsb_exists in H0 as ([[[sc2 z] sc'] rhs] & Hin & Heq). apply andb_prop in Heq as [A B].
+    destruct (str_eqb_spec sc0 sc2) as [->|]; [|discriminate]. destruct (str_eqb_spec y z) as [->|]; [|discriminate].
+    exists sc', rhs. exact Hin.
+  - apply IH; assumption.
+Qed.
+
+Theorem cls_expr_sound vc bs :
+  bindings_consistent vc bs = true -> certificate_bound vc bs = true ->
+  forall sc e v, evals bs sc e v -> val_ok (cls_expr vc sc e) v.
+Proof.
+  intros Hc Hb sc e v E.
+  induction E; cbn [cls_expr]; try (apply val_ok_qf; assumption).
+  - (* literal *) destruct (quote_free s) eqn:Q; [apply val_ok_qf, Q|exact I].
+  - (* bound variable *)
+    unfold bindings_consistent in Hc. rewrite forallb_forall in Hc. specialize (Hc _ H). cbn in Hc.
+    destruct (var_cls vc sc x) as [k|]; [|discriminate]. apply (val_ok_mono _ k _ (proj1 (N.leb_le _ _) Hc) IHE).
+  - (* unbound variable *)
+    destruct (var_cls vc sc x) as [k|] eqn:V.
+    + destruct (var_cls_bound vc bs sc x k Hb V) as (sc' & rhs & Hin). exfalso. exact (H sc' rhs Hin).
+    + rewrite H0. exact I.
+  - apply (val_ok_mono _ _ _ (N.le_max_l _ _) IHE).
+  - apply (val_ok_mono _ _ _ (N.le_max_r _ _) IHE).
+  - apply (val_ok_mono _ _ _ (N.le_max_l _ _) IHE).
+  - apply (val_ok_mono _ _ _ (N.le_max_r _ _) IHE).
+  - apply val_ok_app; [apply (val_ok_mono _ _ _ (N.le_max_l _ _) IHE1)|apply (val_ok_mono _ _ _ (N.le_max_r _ _) IHE2)].
+  - apply val_ok_repeat. apply (val_ok_mono _ _ _ (N.le_max_l _ _) IHE).
+  - apply val_ok_repeat. apply (val_ok_mono _ _ _ (N.le_max_r _ _) IHE).
+  - (* attribute outside both whitelists *) rewrite H, H0. exact I.
+  - (* replace *)
+    destruct (quote_free r) eqn:Q; cbn [andb]; [|exact I]. destruct (N.leb_spec (cls_expr vc sc e) 3) as [L|L]; [|exact I].
+    unfold val_ok in *. apply N.leb_le in L. rewrite L in *. apply qf_replace; assumption.
+  - (* e / escape / forceescape *) rewrite H. apply val_ok_qf, qf_ms_escape.
+  - (* make_unique *) change (str_in w_make_unique w_esc_filters) with true. cbv iota. apply val_ok_qf, make_unique_quote_free.
+  - (* display_type on a type *)
+    change (str_in w_display_type w_esc_filters) with false. change (str_in w_display_type w_ident_filters) with false.
+    change (str_in w_display_type w_num_filters) with false. change (str_eqb w_display_type w_display_type) with true. cbv iota.
+    unfold val_ok. change (4 <=? 3) with false. change (4 =? 4) with true. cbv iota.
+    exists (disp_type d). split; [apply display_type_render|]. split; [apply ok_disp_type, H|apply frag_disp_type].
+  - change (str_in w_display_type w_esc_filters) with false. change (str_in w_display_type w_ident_filters) with false.
+    change (str_in w_display_type w_num_filters) with false. change (str_eqb w_display_type w_display_type) with true. cbv iota.
+    unfold val_ok. change (4 <=? 3) with false. change (4 =? 4) with true. cbv iota.
+    exists (disp_inst di). split; [apply display_inst_render|]. split; [apply ok_disp_inst, H|apply frag_disp_inst].
+  - (* safe / string *)
+    apply str_in_spec in H. destruct H as [<-|[<-|[]]];
+      repeat match goal with |- context [str_in ?n ?l] => let r := eval vm_compute in (str_in n l) in change (str_in n l) with r end;
+      repeat match goal with |- context [str_eqb ?n w_display_type] => let r := eval vm_compute in (str_eqb n w_display_type) in change (str_eqb n w_display_type) with r end;
+      cbv iota; exact IHE.
+  - (* unknown filter *) rewrite H, H0, H1, H2, H3. exact I.
+  - exact I.
+Qed.
+
+(* the regenerated tables pass the Coq-side classification: certificate consistent, every site safe *)
+Theorem html_sinks_classified_safe : sinks_classified_safe = true.
+Proof. vm_compute. reflexivity. Qed.
+
+(* consequence: whatever a site of the real templates can print is quote_free (classes 0-3) or balanced, well-formed markup
+   (class 4, text positions only) -- for arbitrary documentation text *)
+Theorem html_site_values_ok s v :
+  In s html_sites -> autoescape_selected (st_template s) = false ->
+  evals html_bindings (st_scope s) (st_expr s) v ->
+  (st_ctx s =? 0) = true /\ markup_ok v \/ quote_free v = true.
+Proof.
+  intros Hin Hae E. pose proof html_sinks_classified_safe as H. unfold sinks_classified_safe in H.
+  apply andb_prop in H as [H Hs]. apply andb_prop in H as [Hc Hb]. rewrite forallb_forall in Hs. specialize (Hs s Hin).
+  unfold site_safe_coq in Hs. rewrite Hae in Hs. cbn [andb orb] in Hs.
+  pose proof (cls_expr_sound _ _ Hc Hb _ _ _ E) as V. unfold site_cls in Hs. unfold val_ok in V.
+  destruct (st_ctx s =? 0).
+  - destruct (N.leb_spec (cls_expr html_var_cls (st_scope s) (st_expr s)) 3); [right; exact V|].
+    apply N.leb_le in Hs. destruct (N.eqb_spec (cls_expr html_var_cls (st_scope s) (st_expr s)) 4); [left; split; [reflexivity|exact V]|lia].
+  - rewrite Hs in V. right. exact V.
+Qed.
